@@ -323,4 +323,99 @@ example : ((classOfName "ZERR").map fun c => (fill defsTable c ⟨[4, 0.001, 0.0
 example : ((classOfName "DANG").map fun c => (fill defsTable c ⟨[1.5], some [("sd", .num 0.05)]⟩).toOption.bind
     (fun o => o.get "s")) = some (some (.num 0.1)) := by decide +kernel
 
+/-! ### tokens: numbers first, then names -/
+
+/-- **parseLine_numbers_then_names**: on a line written as the syntax says (numeric parameters, then atom names) the
+    parameter list is exactly the numbers and the atom list exactly the names, both in file order -/
+theorem parseLine_names (names : List String) : parseLine (names.map Tok.word) = ([], names) := by
+  induction names with
+  | nil => rfl
+  | cons a t ih =>
+    simp only [parseLine, List.map_cons, List.filterMap_cons] at ih ⊢
+    simp only [Prod.mk.injEq] at ih
+    simp [ih.1, ih.2]
+
+theorem parseLine_numbers_then_names (nums : List Rat) (names : List String) :
+    parseLine (nums.map Tok.num ++ names.map Tok.word) = (nums, names) := by
+  induction nums with
+  | nil => simpa using parseLine_names names
+  | cons a t ih =>
+    simp only [parseLine, List.map_cons, List.cons_append, List.filterMap_cons] at ih ⊢
+    simp only [Prod.mk.injEq] at ih
+    simp [ih.1, ih.2]
+
+example : parseLine [.num 1.5, .num 0.03, .word "C1", .word "C2"] = ([1.5, 0.03], ["C1", "C2"]) := by decide +kernel
+
+/-! ### setter round trips -/
+
+/-- **ls_setter_roundtrip**: `cycles.number = n` (re-parse of the printed text) yields an object whose text denotes
+    exactly (n, nrf, nextra) of the line it came from — for every legal L.S./CGLS line and every n -/
+theorem ls_setter_roundtrip (cgls : Bool) (ps : List Int) (l : LS) (n : Int) (h : lsInit cgls ps = .ok l)
+    (hlen : ps.length ≤ 3) :
+    lsDenotes (lsTokens { l with cycles := n }) = some (n, l.nrf.getD 0, l.nextra.getD 0) ∧
+    ∃ l', lsSetNumber l n = .ok l' ∧ l'.denotes = (n, l.nrf.getD 0, l.nextra.getD 0) ∧ l'.cgls = cgls := by
+  match ps, hlen with
+  | [], _ => simp [lsInit] at h
+  | [a], _ =>
+    simp only [lsInit, Except.ok.injEq] at h
+    subst h
+    simp [lsTokens, lsDenotes, lsSetNumber, lsInit, LS.denotes]
+  | [a, b], _ =>
+    simp only [lsInit, Except.ok.injEq] at h
+    subst h
+    simp [lsTokens, lsDenotes, lsSetNumber, lsInit, LS.denotes]
+  | [a, b, c], _ =>
+    simp only [lsInit, Except.ok.injEq] at h
+    subst h
+    simp [lsTokens, lsDenotes, lsSetNumber, lsInit, LS.denotes]
+  | _ :: _ :: _ :: _ :: _, h' => simp at h'
+
+/-- the case the unrepaired printer lost: nrf = 0 in front of nextra -/
+example : lsDenotes (lsTokens { (⟨false, 25, some 0, some 50⟩ : LS) with cycles := 4 }) = some (4, 0, 50) := by decide +kernel
+
+/-- **wght_roundtrip**: after `update_weight()` the printed WGHT line denotes exactly the suggested scheme
+    (all six parameters, with the documented defaults for the ones the short form omits) -/
+theorem wght_roundtrip (cur sug : W) : wghtDenotes (wghtTokens (updateWeight cur sug)) = some sug := by
+  obtain ⟨a, b, c, d, e, f⟩ := sug
+  unfold updateWeight wghtTokens
+  by_cases h : (c, d, e, f) = ((0 : Rat), (0 : Rat), (0 : Rat), (0.33333 : Rat))
+  · simp only [Prod.mk.injEq] at h
+    obtain ⟨rfl, rfl, rfl, rfl⟩ := h
+    simp [wghtDenotes]
+  · simp [h, wghtDenotes]
+
+example : wghtDenotes (wghtTokens (updateWeight ⟨0.05, 0.7, 0, 0, 0, 0.33333⟩ ⟨0.06, 0.8, 0, 0, 0.1, 0.23333⟩))
+    = some ⟨0.06, 0.8, 0, 0, 0.1, 0.23333⟩ := by decide +kernel
+
+/-! ### hand-modelled classes against the syntax table -/
+
+def specOf (kw : String) (ps : List Rat) : List (String × SpecVal) :=
+  match syntaxOf kw with
+  | none => []
+  | some sp => sp.positions.map fun pk => (pk.1.attr, specVal (effDefs none) pk.1 pk.2 ps)
+
+def meets (o : Obj) (spec : List (String × SpecVal)) : Bool := spec.all fun av => accepts (o.get av.1) av.2
+
+/-- **part_attr_spec**: `PART n` / `PART n sof`, n an integer -/
+theorem part_attr_spec (n sof : Rat) (hn : isInt n = true) :
+    meets (partModel [n]) (specOf "PART" [n]) = true ∧ meets (partModel [n, sof]) (specOf "PART" [n, sof]) = true := by
+  have e := pyInt_of_isInt n hn
+  constructor <;>
+    simp [meets, specOf, syntaxOf, syntaxTable, Syntax.positions, positionsFrom, specVal, accepts, partModel, Obj.get, Obj.set,
+      rq, df, dfltVal, e]
+
+/-- **latt_attr_spec**: `LATT N` with N an integer, and the bare form -/
+theorem latt_attr_spec (n : Rat) (hn : isInt n = true) :
+    meets (lattModel [n]) (specOf "LATT" [n]) = true ∧ meets (lattModel []) (specOf "LATT" []) = true := by
+  have e := pyInt_of_isInt n hn
+  constructor <;>
+    simp [meets, specOf, syntaxOf, syntaxTable, Syntax.positions, positionsFrom, specVal, accepts, lattModel, Obj.get,
+      df, dfltVal, e]
+
+/-- **htab_attr_spec** -/
+theorem htab_attr_spec (dh : Rat) :
+    meets (htabModel [dh]) (specOf "HTAB" [dh]) = true ∧ meets (htabModel []) (specOf "HTAB" []) = true := by
+  constructor <;>
+    simp [meets, specOf, syntaxOf, syntaxTable, Syntax.positions, positionsFrom, specVal, accepts, htabModel, Obj.get, df, dfltVal]
+
 end Shelx.C16
